@@ -20,6 +20,9 @@ pub struct Case {
     pub secret: Vec<u8>,
     #[serde(with = "hexbytes")]
     pub key: Vec<u8>,
+    /// compare the serverId the real MojangAdapter sends (through the loopback mock) instead of the bare function
+    #[serde(default)]
+    pub via_adapter: bool,
 }
 
 pub struct C11;
@@ -49,12 +52,19 @@ fn classes_of(digest: &[u8; 20]) -> Vec<String> {
 fn decide(case: &Case) -> (Verdict, CaseInfo) {
     let digest = refcrypto::sha1(&[case.server_id.as_bytes(), &case.secret, &case.key]);
     let expect = refcrypto::signed_hex(&digest);
-    let got = minecraft_hash(&case.server_id, &case.secret, &case.key);
+    let got = if case.via_adapter {
+        match crate::checks::c12::observed_server_id(&case.server_id, &case.secret, &case.key) {
+            Some(s) => s,
+            None => return (Verdict::Inconclusive("no request reached the mock".into()), CaseInfo::default()),
+        }
+    } else {
+        minecraft_hash(&case.server_id, &case.secret, &case.key)
+    };
     let classes = classes_of(&digest);
     let nontrivial = classes.iter().any(|c| c != "non_negative");
     let info = CaseInfo::new(nontrivial, classes);
     if got != expect {
-        let sig = if digest[0] & 0x80 != 0 { "hash-mismatch-negative" } else { "hash-mismatch-positive" };
+        let sig = if case.via_adapter { "adapter-hash-differs-from-minecraft-hash" } else if digest[0] & 0x80 != 0 { "hash-mismatch-negative" } else { "hash-mismatch-positive" };
         return (
             Verdict::Fail { sig: sig.into(), msg: format!("minecraft_hash = {got:?}, reference = {expect:?}") },
             info,
@@ -79,7 +89,7 @@ impl Check for C11 {
             1 => proptest::collection::vec(any::<u8>(), 0..=64),
         ];
         let key = proptest::collection::vec(any::<u8>(), 0..=300);
-        (server_id, secret, key).prop_map(|(server_id, secret, key)| Case { server_id, secret, key }).boxed()
+        (server_id, secret, key).prop_map(|(server_id, secret, key)| Case { server_id, secret, key, via_adapter: false }).boxed()
     }
     fn cases(&self, tier: Tier) -> u64 {
         tier.pick(200_000, 50_000_000)
@@ -116,7 +126,7 @@ impl Check for C11 {
                         let rare = lead >> 20 == 0 || lead >> 20 == 0xfff || (d[0] == 0x80 && d[1] == 0);
                         if rare {
                             mined.fetch_add(1, std::sync::atomic::Ordering::Relaxed);
-                            let case = Case { server_id: String::new(), secret: secret.to_vec(), key: key.to_vec() };
+                            let case = Case { server_id: String::new(), secret: secret.to_vec(), key: key.to_vec(), via_adapter: false };
                             let (v, info) = decide(&case);
                             stats.record(crate::runner::hash_json(&case), &info, || serde_json::to_value(&case).unwrap());
                             if let Verdict::Fail { sig, msg } = v {
@@ -127,6 +137,30 @@ impl Check for C11 {
                 });
             }
         });
+        // the hash as it is *used towards the session service*: the real MojangAdapter against the loopback mock
+        // (hook H1), for server ids that a configuration can contain (surrounding blanks, Unicode, empty)
+        let ids = ["", "lobby", " lobby", "lobby ", "\tlobby\n", " ", "a b", "grüße", "-", "0", "LOBBY", "lobby\u{a0}"];
+        let rounds: u64 = tier.pick(25, 2_000);
+        let mut adapter_cases = 0u64;
+        let mut x = seed | 1;
+        'outer: for r in 0..rounds {
+            for id in ids {
+                x ^= x << 13;
+                x ^= x >> 7;
+                x ^= x << 17;
+                let secret = x.to_be_bytes().repeat(2);
+                let key = (x.rotate_left(17) ^ r).to_be_bytes().to_vec();
+                let Some(sent) = crate::checks::c12::observed_server_id(id, &secret, &key) else { continue };
+                adapter_cases += 1;
+                let expect = refcrypto::mc_hash(id, &secret, &key);
+                if sent != expect {
+                    found.lock().unwrap().push(("adapter-hash-differs-from-minecraft-hash".to_string(), format!("configured server id {id:?}: the session service was asked with serverId {sent:?}, Minecraft's hash of (server id, secret, key) is {expect:?}"), serde_json::to_value(Case { server_id: id.to_string(), secret: secret.clone(), key: key.clone(), via_adapter: true }).unwrap()));
+                    break 'outer;
+                }
+            }
+        }
+        stats.set_extra("adapter_requests_checked", json!(adapter_cases));
+        stats.evaluations.fetch_add(adapter_cases, std::sync::atomic::Ordering::Relaxed);
         stats.set_extra("mined_inputs_scanned_with_reference", json!(n));
         stats.set_extra("mined_rare_digest_cases_checked", json!(mined.load(std::sync::atomic::Ordering::Relaxed)));
         let mut v = found.into_inner().unwrap();
